@@ -121,12 +121,14 @@ def gen(ctx, todo_cells):
         # the two-octet field and the four-octet capability disagree: the peer's AS is the one in the capability (RFC 6793)
         'ok-cap': open_msg(65002, 90, [(65, struct.pack('>I', 65001))]),
         'bad-cap': open_msg(65001, 90, [(65, struct.pack('>I', 65002))]),
+        # a disallowed AS *and* an ADD-PATH capability that does not parse: the AS decides (Bad Peer AS), whatever else is wrong
+        'bad-aperr': open_msg(65002, 90, [(65, struct.pack('>I', 65002)), (69, struct.pack('>HBB', 1, 1, 3) + struct.pack('>HBB', 2, 1, 0))]),
     }
     cases = []
 
     def step_of(ev):
         if ev in ('BgpOpen', 'BgpOpenWithDelayOpenTimerRunning'):
-            k = rng.choice(['ok', 'ok', 'ok2', 'ok16', 'bad', 'ap-err', 'ok-cap', 'bad-cap'])
+            k = rng.choice(['ok', 'ok', 'ok2', 'ok16', 'bad', 'ap-err', 'ok-cap', 'bad-cap', 'bad-aperr'])
             return 'E:%s:%s' % (ev, opens[k].hex()), ev, k
         return 'e:' + ev, ev, None
     # 1. every history of length <= depth over all 21 events (from Idle), both DelayOpen settings
@@ -168,7 +170,7 @@ def gen(ctx, todo_cells):
                 if via == 't' and st == 'Connect':
                     continue      # no connection to read from
                 for delay in (0, 1):
-                    variants = ['ok', 'ok2', 'bad', 'ap-err', 'ok16', 'ok-cap', 'bad-cap'] if mk == 'open' else ([None, 'n2.1', 'n2.2', 'n4.0', 'n6.4d'] if mk == 'notification' else [None])
+                    variants = ['ok', 'ok2', 'bad', 'ap-err', 'ok16', 'ok-cap', 'bad-cap', 'bad-aperr'] if mk == 'open' else ([None, 'n2.1', 'n2.2', 'n4.0', 'n6.4d'] if mk == 'notification' else [None])
                     for ok in variants:
                         b = opens[ok] if mk == 'open' else (notifs[ok] if ok else msgs[mk])
                         out.append({'delay': delay, 'hold': rng.choice([90, 3, 0]), 'ap': '1.1,2.1', 'pre': pre,
@@ -187,7 +189,7 @@ def gen(ctx, todo_cells):
                 steps.append(step_of(rng.choice(EVENTS)))
             elif r < 9:
                 mk = rng.choice(['open', 'keepalive', 'update', 'notification'])
-                ok = rng.choice(['ok', 'ok2', 'bad', 'ok16', 'ok-cap', 'bad-cap']) if mk == 'open' else None
+                ok = rng.choice(['ok', 'ok2', 'bad', 'ok16', 'ok-cap', 'bad-cap', 'bad-aperr']) if mk == 'open' else None
                 b = opens[ok] if mk == 'open' else msgs[mk]
                 steps.append(('m:' + b.hex(), 'msg:' + mk, ok))
             else:
